@@ -32,6 +32,19 @@ NAME_POOL = ['a', 'b', 'c', 'd', 'e', 'f', 'g', 'h', 'i', 'A', 'B', 'a b', ' a',
              '-', '~', 'a\tb', '😀', 'z' * 12]
 
 
+def _vandalise(x):
+    if isinstance(x, set):
+        x.clear()
+        x.add('__ghost')
+    elif isinstance(x, list):
+        for e in x:
+            if isinstance(e, list):
+                e.clear()
+        x.reverse()
+        x.pop()
+        x.append('__ghost')
+
+
 def _err(e):
     return 'err ' + type(e).__name__
 
@@ -208,10 +221,20 @@ class Lane(LaneBase):
         rng = random.Random(case.get('seed', 0))
         recs = []
 
+        budget = [40]
+
         def q(fn, args, suffix, thunk, canon):
             try:
-                raw = thunk()
-                reply, raw = canon(raw)
+                raw0 = thunk()
+                reply, raw = canon(raw0)
+                if isinstance(raw0, (list, set)) and raw0 and budget[0] > 0:
+                    # the caller changes the container it was given in place; the same query must answer as before
+                    budget[0] -= 1
+                    _vandalise(raw0)
+                    again = canon(thunk())[0]
+                    if again != reply and self._vandal_fail is None:
+                        self._vandal_fail = (f'{fn}{args!r}: after the caller changed the returned {type(raw0).__name__} in '
+                                             f'place the same query answers differently')
             except (AssertionError, KeyError, RecursionError, ValueError, TypeError) as e:
                 reply, raw = _err(e), None
             except Exception as e:   # library error classes (NodeDuplicatedError, ...)
@@ -292,6 +315,14 @@ class Lane(LaneBase):
         h = int(hashlib.sha1(repr(nodes).encode()).hexdigest(), 16)
         a = nodes[h % len(nodes)]
         b = nodes[(h // 5) % len(nodes)]
+        try:
+            related = [(x, y) for x in nodes for y in sorted(g.get_descendants(x))]
+            if related and h % 4:
+                a, b = related[h % len(related)]         # a pair for which the relation holds (mostly)
+                if h % 8 >= 4:
+                    a, b = b, a
+        except Exception:  # noqa: BLE001
+            pass
         fails = []
 
         def canon(x):
@@ -302,6 +333,11 @@ class Lane(LaneBase):
             return x
         fns = [('get_ancestors', lambda x, y: g.get_ancestors(x)), ('get_descendants', lambda x, y: g.get_descendants(x)),
                ('is_ancestor', lambda x, y: g.is_ancestor(x, y)), ('is_descendant', lambda x, y: g.is_descendant(x, y)),
+               ('is_ancestor(list)', lambda x, y: g.is_ancestor(x, [y])), ('is_descendant(list)', lambda x, y: g.is_descendant(x, [y])),
+               ('is_ancestor(set)', lambda x, y: g.is_ancestor(x, {y})), ('is_descendant(set)', lambda x, y: g.is_descendant(x, {y})),
+               ('get_common_descendants', lambda x, y: g.get_common_descendants(x, y)),
+               ('get_descendant_graph', lambda x, y: g.get_descendant_graph(x)),
+               ('get_parents_graph', lambda x, y: g.get_parents_graph(x)),
                ('get_nodes_between', lambda x, y: g.get_nodes_between(x, y)),
                ('get_all_causal_paths', lambda x, y: g.get_all_causal_paths(x, y)),
                ('directed_path_exists', lambda x, y: g.directed_path_exists(x, y)),
@@ -336,6 +372,15 @@ class Lane(LaneBase):
         """
         lines, impl = [], []
         head = f'{hxlist(nodes)} {hxedges(edges)}'
+        try:
+            # an earlier caller changed the lists it was given in place: the next answers must not care
+            first = g.get_topological_order()
+            first.reverse()
+            first.append('__ghost')
+            for o in g.get_topological_order(return_all=True)[:50]:
+                o.clear()
+        except Exception:  # noqa: BLE001
+            pass
         try:
             order = g.get_topological_order()
             lines.append(f'topo valid {head} {hxlist(order)}')
@@ -456,12 +501,15 @@ class Lane(LaneBase):
         g = self.build(nodes, tedges, validate=case.get('validate', True))
         directed = [(s, d) for s, d, t in tedges if t == '->']
         head = f'{hxlist(nodes)} {hxedges(directed)}'
+        self._vandal_fail = None
         recs = self.answers(g, nodes, case)
         lines = [f'q10 {fn} {head} {sfx}' for fn, _a, sfx, _r, _raw in recs]
         impl = [reply for _fn, _a, _sfx, reply, _raw in recs]
         oracle = []
         if fam != 'cyc':
             oracle = self.oracle(g, recs, fam)
+        if self._vandal_fail and fam != 'cyc':
+            oracle.append(self._vandal_fail)
         if fam == 'relab' and 'twin' in case:
             oracle += self.twin_check(case, recs)
         if fam in ('dag', 'relab') and len(nodes) >= 2:
